@@ -312,3 +312,172 @@ def relation_check(rep, enum, extras, nroots, log):
         log('    relation %s(%s): %s over %d classes %s' % (e['kind'], e['name'], res['status'], res['classes'], res.get('why', '')))
 
 
+
+
+_SP = {}
+
+
+def _spec_worker(rows):
+    import cvss4_spec
+    return [cvss4_spec.score_levels(tuple(int(x) for x in r)) for r in rows]
+
+
+def fp_oracle(prog, job, out, log=print):
+    """v4.0 Score against the exact specification oracle.
+
+    1. the impl's score table: solver-derived cubes of the integer->float frontier, folded by the solver
+       (tabulate, as for the other FP properties);
+    2. the joint table (frontier tuple, effective severity levels of the 15 scoring metrics): fine
+       bit-field groups enumerated by the solver, exact integer evaluation over their product;
+    3. for every distinct joint row: folded score == exact specification score of the levels."""
+    import numpy as np
+    import struct
+    ex = engine.Executor(prog, None, job.get('unwind', 400))
+    ex.stage_re = job.get('stage_re', r'(?i)round|Score$')
+    ex.istage_re = job.get('istage_re', r'(?i)^macrovector$')
+    ex.run_inits()
+    t0 = time.time()
+    ex.call_function(job['func'], [], TRUE, None)
+    out['exec_s'] = round(time.time() - t0, 3)
+    out['stats'] = dict(ex.stats)
+    out['funcs'] = dict(ex.funcs_encoded)
+    out['inputs'] = ex.inputs
+    out['results'] = []
+    solver = job['solvers'][0]
+    workers = job.get('workers', 16)
+    memo = {}
+    plain = [i for i, o in enumerate(ex.obligations) if not has_zone(o['viol'], memo)]
+    if plain:
+        r = engine.discharge(ex, solver, job['timeout'], only=set(plain), workers=workers)
+        out['vacuity'] = {solver: r['vacuity']}
+        out['solver_time'] = {solver: round(r['solver_time'], 3)}
+        out['queries'] = {solver: r['queries']}
+        out['nodes'] = r['nodes']
+        for rr in r['results']:
+            rec = {k: rr.get(k) for k in ('index', 'kind', 'label', 'pos', 'fn', 'status', 'model', 'reachable', 'errors')}
+            rec['time'] = round(rr['time'], 3)
+            rec['by_solver'] = {solver: rr['status']}
+            out['results'].append(rec)
+    extras = [e for e in getattr(ex, 'extras', []) if e['kind'] == 'oracle']
+    if len(extras) != 1:
+        raise Unsupported('fp_oracle needs exactly one verif.Oracle call')
+    e = extras[0]
+    val, digits = e['val'], e['digits']
+    order, zone, frontier = tabulate.analyse([val], {})
+    F = sorted(frontier.values(), key=lambda t: t.id)
+    cap = {}
+
+    def capture(rep, enum):
+        cap['recs'] = rep.get('level_records')
+    rep = tabulate.tabulate(ex.assumptions, [], cvss_spec.lookup, log, use_z3=job.get('use_z3', True), workers=workers, solver=solver,
+                            extras=[val], records=F, special=capture)
+    recs = cap.get('recs') or []
+    status = 'unsat'
+    notes = list(rep['inconclusive'])
+    res = {'index': len(ex.obligations), 'kind': 'relation:oracle', 'label': e['name'], 'pos': '', 'fn': job['func'], 'cubes': rep['cubes']}
+    if notes or not rep['coverage_complete'] or len(recs) != 1:
+        res['status'] = 'unknown'
+        res['errors'] = notes[:5] or ['unexpected staging of the score']
+        res['by_solver'] = {solver + '+fold': 'unknown'}
+        out['results'].append(res)
+        out['tabulation'] = {k: v for k, v in rep.items() if k not in ('failures', 'relations', 'level_records')}
+        return out
+    lr = recs[0]
+    pos = {tid: p for p, tid in enumerate(lr['rec_terms'])}
+    fidx = [pos[t.id] for t in F]
+    T_impl = {}
+    for ci, widx, mainv, recv in lr['rows']:
+        T_impl[tuple(recv[p] for p in fidx)] = mainv[0]
+    log('    impl score table: %d frontier tuples' % len(T_impl))
+    # joint rows
+    mat, domains, complete, info = tabulate.derive_keys(F + digits, ex.assumptions, workers, log, memo={}, solver=solver)
+    if mat is None or not complete:
+        res['status'] = 'unknown'
+        res['errors'] = [str(info)]
+        res['by_solver'] = {solver + '+fold': 'unknown'}
+        out['results'].append(res)
+        return out
+    nf = len(F)
+    # impl score per row
+    fvals = np.stack([domains[j][mat[:, j]] for j in range(nf)], axis=1)
+    uf, inv_f = np.unique(fvals, axis=0, return_inverse=True)
+    sc_impl = np.empty(len(uf), dtype=np.int64)
+    bad_impl = []
+    for k, row in enumerate(uf):
+        key = tuple(bool(x) if t.sort == 'B' else int(x) for x, t in zip(row, F))
+        b = T_impl.get(key)
+        if b is None:
+            sc_impl[k] = -999
+            bad_impl.append(key)
+            continue
+        x = struct.unpack('<d', struct.pack('<Q', b))[0]
+        k10 = round(x * 10) if x == x and abs(x) < 1e6 else -998
+        sc_impl[k] = k10 if (k10 / 10.0 == x) else -997
+    # spec score per distinct level tuple
+    lev = np.stack([domains[nf + j][mat[:, nf + j]].astype(np.int64) for j in range(len(digits))], axis=1)
+    ul, inv_l = np.unique(lev, axis=0, return_inverse=True)
+    t1 = time.time()
+    import multiprocessing
+    chunks = [ul[i:i + 50000] for i in range(0, len(ul), 50000)]
+    with multiprocessing.Pool(workers) as pool:
+        parts = pool.map(_spec_worker, chunks)
+    sc_spec = np.array([x for p in parts for x in p], dtype=np.int64)
+    log('    specification scores for %d effective classes in %.1fs' % (len(ul), time.time() - t1))
+    got = sc_impl[inv_f.reshape(-1)]
+    want = sc_spec[inv_l.reshape(-1)]
+    mism = np.nonzero(got != want)[0]
+    res['classes'] = int(len(ul))
+    res['rows'] = int(len(mat))
+    res['frontier_tuples'] = int(len(uf))
+    out['tabulation'] = {k: v for k, v in rep.items() if k not in ('failures', 'relations', 'level_records')}
+    out['tabulation']['oracle'] = {'joint': info, 'effective_classes': int(len(ul)), 'rows': int(len(mat)), 'mismatching_rows': int(len(mism))}
+    if len(mism) == 0:
+        res['status'] = 'unsat'
+        res['reachable'] = 'sat'
+    else:
+        # group mismatches by (got, want, no-impact pattern) for reporting; confirm a few with the solver
+        enum = tabulate.Enumerator(ex.assumptions, F + digits, solver, 600)
+        models = []
+        sigs = {}
+        for i in mism:
+            sig = (int(got[i]), int(want[i]))
+            sigs[sig] = sigs.get(sig, 0) + 1
+        try:
+            tried = 0
+            seen_sig = set()
+            for i in mism:
+                sig = (int(got[i]), int(want[i]))
+                if sig in seen_sig and len(models) >= 1:
+                    continue
+                seen_sig.add(sig)
+                tried += 1
+                if tried > 6:
+                    break
+                cons = []
+                for j, t in enumerate(F + digits):
+                    v = int(domains[j][mat[i, j]])
+                    cons.append((t, bool(v) if t.sort == 'B' else v))
+                st, m = enum.witness(cons)
+                if st == 'sat':
+                    models.append({'model': m, 'got10': int(got[i]), 'want10': int(want[i]), 'levels': [int(x) for x in lev[i]]})
+                    if len(models) >= 3:
+                        break
+        finally:
+            enum.close()
+        res['mismatch_signatures'] = sorted(([k[0], k[1], v] for k, v in sigs.items()), key=lambda x: -x[2])[:20]
+        res['n_mismatching_rows'] = int(len(mism))
+        log('    %d mismatching rows; (impl x10, spec x10, rows): %s' % (len(mism), res['mismatch_signatures'][:12]))
+        if models:
+            res['status'] = 'sat'
+            res['model'] = models[0]['model']
+            res['oracle'] = {'name': e['name'], 'want10': models[0]['want10'], 'got10': models[0]['got10'], 'levels': models[0]['levels']}
+            res['all_models'] = models
+        else:
+            res['status'] = 'unknown'
+            res['errors'] = ['mismatching rows without a concrete witness (unreachable combinations of the over-approximated cube product?)']
+    res['by_solver'] = {solver + '+fold': res['status']}
+    out['results'].append(res)
+    out.setdefault('queries', {})
+    out['queries'][solver] = out['queries'].get(solver, 0) + rep['allsat_queries'] + info.get('allsat_queries', 0)
+    out['terms'] = TM.nterms()
+    return out
